@@ -7,6 +7,7 @@ import (
 
 	"github.com/davecgh/go-spew/spew"
 	"github.com/internetarchive/Zeno/internal/pkg/log"
+	"github.com/internetarchive/Zeno/internal/pkg/verifhook"
 	"github.com/internetarchive/Zeno/pkg/models"
 )
 
@@ -102,6 +103,7 @@ func ReceiveFeedback(item *models.Item) error {
 
 	item.SetSource(models.ItemSourceFeedback)
 	_, loaded := globalReactor.stateTable.Swap(item.GetID(), item)
+	verifhook.At("reactor.feedback.swapped", item.GetID())
 	if !loaded {
 		// An item sent to the feedback channel should be present on the state table, if not present reactor should error out
 		return ErrFeedbackItemNotPresent
@@ -132,6 +134,7 @@ func ReceiveInsert(item *models.Item) error {
 		return ErrReactorFrozen
 	case globalReactor.tokenPool <- struct{}{}:
 		logger.Debug("received item", "item", item.GetShortID())
+		verifhook.At("reactor.insert.token", item.GetID())
 		if !item.IsSeed() {
 			spew.Dump(item)
 			panic("item is not a seed")
@@ -146,6 +149,7 @@ func ReceiveInsert(item *models.Item) error {
 			panic("item already present in reactor")
 		}
 
+		verifhook.At("reactor.insert.stored", item.GetID())
 		globalReactor.input <- item
 		return nil
 	}
@@ -158,6 +162,7 @@ func MarkAsFinished(item *models.Item) error {
 	}
 
 	if _, loaded := globalReactor.stateTable.LoadAndDelete(item.GetID()); loaded {
+		verifhook.At("reactor.finish.deleted", item.GetID())
 		<-globalReactor.tokenPool
 		return nil
 	}
@@ -177,6 +182,7 @@ func (r *reactor) run() {
 		// Feeds items to the output channel
 		case item, ok := <-r.input:
 			if ok {
+				verifhook.At("reactor.run.taken", item.GetID())
 				select {
 				case <-r.ctx.Done():
 					logger.Debug("aborting item due to stop", "item", item.GetShortID())
